@@ -79,7 +79,15 @@ def check_history(hist):
     allinst = insts + [other]
     allconn = [c for lst in conns.values() for c in lst if not isinstance(c, dict)]
     view = {}        # (inst idx, port) -> object   (the specification's view)
+    import hdl21 as _h
+    # frame: connecting, replacing or disconnecting a port never changes what a connectable object CONTAINS (an anonymous
+    # bundle that sits on another port as well must not be rewritten behind that port's back)
+    content = {id(o): (o, dict(o._namespace)) for o in allconn if isinstance(o, _h.AnonymousBundle)}
     for step, (op, ii, port, kind, which) in enumerate(hist):
+        for o, was in content.values():
+            if {k_: id(v_) for k_, v_ in o._namespace.items()} != {k_: id(v_) for k_, v_ in was.items()}:
+                return ("frame.connectable-content", f"before step {step} of {hist!r}: an anonymous bundle holds "
+                                                     f"{sorted(o._namespace)} -> other objects than when it was made")
         inst = insts[ii]
         if kind == "dict":
             c = conns["dict"][0]
@@ -146,6 +154,63 @@ def check_history(hist):
         bad = inv_conn_runtime(allinst, allconn) + inv_refs_runtime(allinst)
         if bad:
             return ("post.inv", f"after step {step} of {hist!r}: {bad[0]}")
+    for o, was in content.values():
+        if {k_: id(v_) for k_, v_ in o._namespace.items()} != {k_: id(v_) for k_, v_ in was.items()}:
+            return ("frame.connectable-content", f"after {hist!r}: an anonymous bundle no longer holds the objects it was made of")
+    return None
+
+
+OPEN_CASES = [(target, how, first) for target in ("instance", "array") for how in ("call", "setattr", "connect", "replaced-then")
+              for first in ("sig", "bit", "cat", "noconn", "ref", "bref")]
+
+
+def check_open_after_disconnect(case):
+    """a port connected (to anything, in any way) and then disconnect()ed is an OPEN port: the design is refused exactly as
+    it is when the port was never connected - no net is invented for it"""
+    import hdl21 as h
+    target, how, first = case
+    w = {"open_case": repr(case)}
+
+    def build(history):
+        E = h.ExternalModule(name="OpenE", port_list=[h.Inout(name="a"), h.Inout(name="b")], desc="", domain="c04o")
+        m = h.Module(name="OpenTop")
+        m.s1, m.s2 = h.Signal(), h.Signal()
+        m.bus = h.Signal(width=2)
+        B = h.Bundle(name="OpenB")
+        B.add(h.Signal(name="x"))
+        m.bb = B()
+        m.other = E()(a=m.s2, b=m.s2)
+        inst = E()(a=m.s1)
+        if target == "array":
+            inst = 2 * inst
+        m.i = inst
+        if history:
+            c = {"sig": lambda: m.s2, "bit": lambda: m.bus[1], "cat": lambda: h.Concat(m.bus[0]), "noconn": lambda: h.NoConn(),
+                 "ref": lambda: m.other.b, "bref": lambda: m.bb.x}[first]()
+            if how == "call":
+                m.i(b=c)
+            elif how == "setattr":
+                m.i.b = c
+            elif how == "connect":
+                m.i.connect("b", c)
+            else:
+                m.i.b = m.s2
+                m.i.replace("b", c)
+            m.i.disconnect("b")
+        return m
+
+    def outcome(m):
+        try:
+            pkg = h.to_proto(m)
+        except Exception as e:
+            return ("refused", type(e).__name__)
+        pm = [x for x in pkg.modules if x.name.endswith("OpenTop")][0]
+        return ("built", sorted(s_.name for s_ in pm.signals))
+    never, after = outcome(build(False)), outcome(build(True))
+    if never[0] != "refused":
+        return ("open.harness", f"{case!r}: the design with a never-connected port was accepted: {never}", w)
+    if after != never:
+        return ("open.net-invented", f"{case!r}: port `b` connected and then disconnected: {after}; never connected: {never}", w)
     return None
 
 
@@ -386,6 +451,11 @@ def run(ctx):
              "step: returned value, whole conns view, Inv_conn, Inv_refs; distinct = distinct history; non-trivial = "
              "length >= 2",
         bound="length<=%d" % (6 if thorough else 4), key_of=repr, nontrivial=lambda hcase: len(hcase) >= 2)
+    ctx.run_bounded("open-after-disconnect", OPEN_CASES, check_open_after_disconnect,
+                    rule="a port of an instance / array connected by call, assignment, connect() or replace() to a signal, bit, "
+                         "concatenation, no-connect, port reference or bundle member, then disconnected and left open: the design "
+                         "is refused exactly as with a never-connected port (no net is invented for it)",
+                    bound="2 targets x 4 ways x 6 first connections", key_of=repr)
     cases = itertools.chain(small_elab_histories(), elab_histories(rnd, 20000 if thorough else 2500, 7 if thorough else 5))
     ctx.run_bounded(
         "elaborated-histories", cases, check_elab_history,
@@ -402,6 +472,10 @@ def replay(payload):
     inp = payload.get("input") or {}
     if "elab_history" in inp:
         r = check_elab_history(eval(inp["elab_history"]))
+        print("replay:", r)
+        return 1 if r else 0
+    if "open_case" in inp:
+        r = check_open_after_disconnect(eval(inp["open_case"]))
         print("replay:", r)
         return 1 if r else 0
     if "history" in inp:
